@@ -1,4 +1,4 @@
-import Driver.Common
+import Driver.Expr
 import Model.Audit
 open Lean Drv Audit
 
@@ -51,6 +51,15 @@ def handle (j : Json) : Except String Json := do
     let db : Db := { cols, panel }
     pure (Json.mkObj [("bio", jStrs ((topAuditBio d db root).map faultStr)),
                       ("expr", jStrs ((topAuditExpr d db root).map faultStr))])
+  | "evalmissing" =>
+    -- the engine semantics with the missing-data test of bioExprVariable
+    let d ← DrvExpr.parseDag (← j.getObjVal? "dag")
+    let env ← DrvExpr.parseEnv (← j.getObjVal? "env")
+    let code ← getFloat j "code"
+    let k ← getNat j "root"
+    if !Expr.wfB d then throw "ill-formed dag" else
+    pure (Json.mkObj [("missing", DrvExpr.resJson (Expr.eval (Expr.semMissing code) d env k)),
+                      ("engine", DrvExpr.resJson (Expr.eval Expr.semEngine d env k))])
   | _ => throw "bad-op"
 
 def main : IO Unit := Drv.run handle
